@@ -318,19 +318,26 @@ def resiSpec (toks : List RTok) : ResiDef :=
   | some (c, n) => { cls := words.head?.getD "", num := n, alias := nums.head?, chain := some c }
   | none => { cls := words.head?.getD "", num := nums.head?.getD 0, alias := nums.tail.head?, chain := none }
 
-/-- the forms the syntax allows: at most one class word, number positive, at most one alias, the
-    `chain:number` token instead of (not in addition to, not behind) a plain number -/
-def resiFormOK (toks : List RTok) : Bool :=
-  let words := toks.filter isWord
-  let nums := toks.filterMap fun | .num n => some n | _ => none
-  let chains := toks.filterMap fun | .chainNum c n => some (c, n) | _ => none
-  decide (words.length ≤ 1) &&
-  (match chains with
-   | [] => (match nums with | [] => true | [_] => true | [n, _] => decide (n > 0) | _ => false)
-   | [(_, n)] => (match nums with | [] => true | [_] => decide (n > 0) && (match toks.filter (fun t => !isWord t) with
-                                                          | .chainNum _ _ :: _ => true | _ => false)
-                                  | _ => false)
-   | _ => false)
+/-- the forms the syntax allows (`RESI class[ ] number[0] alias`, class and number in either order, the number
+    possibly written `chain:number`; an alias only behind a positive number) -/
+def resiFormOK : List RTok → Bool
+  | [] => true
+  | [.word _] => true
+  | [.num _] => true
+  | [.chainNum _ _] => true
+  | [.word _, .num _] => true
+  | [.num _, .word _] => true
+  | [.word _, .chainNum _ _] => true
+  | [.chainNum _ _, .word _] => true
+  | [.num n, .num _] => decide (n > 0)
+  | [.chainNum _ n, .num _] => decide (n > 0)
+  | [.word _, .num n, .num _] => decide (n > 0)
+  | [.num n, .word _, .num _] => decide (n > 0)
+  | [.num n, .num _, .word _] => decide (n > 0)
+  | [.word _, .chainNum _ n, .num _] => decide (n > 0)
+  | [.chainNum _ n, .word _, .num _] => decide (n > 0)
+  | [.chainNum _ n, .num _, .word _] => decide (n > 0)
+  | _ => false
 
 /-! ### include files (`+filename`) -/
 
@@ -369,6 +376,10 @@ structure ViewAtom where
   element : String
 deriving DecidableEq, Repr
 
+/-- the observed atoms together with `Atom.element` -/
+def viewAtoms (table : List String) (atoms : List AtomObs) : List ViewAtom :=
+  atoms.map fun o => { obs := o, element := sfac2elem table o.sfac }
+
 namespace View
 def isHydrogen (a : ViewAtom) : Bool := a.element = "H" || a.element = "D" || a.element = "T"
 def hydrogenAtoms (l : List ViewAtom) : List ViewAtom := l.filter isHydrogen
@@ -381,6 +392,18 @@ def atomsInClass (l : List ViewAtom) (c : String) : List Nat :=
 /-- `set(x.resinum …)` as a duplicate-free list in order of first occurrence -/
 def residues (l : List ViewAtom) : List Int :=
   l.foldl (fun acc a => if acc.contains a.obs.resiNum then acc else acc ++ [a.obs.resiNum]) []
+/-- `sum(x.uvals[1:])` (Python's `sum`: left to right from 0) -/
+def tailSum (u : List Rat) : Rat := (u.drop 1).foldl (· + ·) 0
+/-- `n_anisotropic_atoms`: `sum(x.uvals[1:]) > 0.00001` -/
+def nAniso (l : List ViewAtom) : Nat := (l.filter fun a => decide (tailSum a.obs.uvals > 1 / 100000)).length
+/-- `n_isotropic_atoms`: `sum(x.uvals[1:]) == 0.0` -/
+def nIso (l : List ViewAtom) : Nat := (l.filter fun a => decide (tailSum a.obs.uvals = 0)).length
+
+/-- specification: an atom is anisotropic when it has displacement values beyond the first -/
+def hasAniso (u : List Rat) : Bool := (u.drop 1).any (fun x => decide (x ≠ 0))
+/-- anisotropic atoms of the structure (peaks are not atoms) -/
+def specNAniso (l : List ViewAtom) : Nat := (l.filter fun a => !a.obs.qpeak && hasAniso a.obs.uvals).length
+def specNIso (l : List ViewAtom) : Nat := (l.filter fun a => !a.obs.qpeak && !hasAniso a.obs.uvals).length
 end View
 
 end Shelx.C03
